@@ -293,44 +293,44 @@ func ruleScanClass(c *Ctx) []Ob {
 	// (*tDecoder).Malloc
 	if m := c.Func(pkgReflect, "(*tDecoder).Malloc"); m != nil {
 		abi := m.Params[len(m.Params)-1]
-		var gc, sp *ssa.Call
+		var gcs []*ssa.Call
+		var sp *ssa.Call
 		for _, b := range m.Blocks {
 			for _, ins := range b.Instrs {
 				if call, ok := ins.(*ssa.Call); ok && call.Call.StaticCallee() != nil {
 					switch shortFn(call.Call.StaticCallee()) {
 					case "mallocgc":
-						gc = call
+						gcs = append(gcs, call)
 					case "span.Malloc":
 						sp = call
 					}
 				}
 			}
 		}
-		if gc == nil || sp == nil {
+		untypedOnly := func(b *ssa.BasicBlock) bool { // block reached only with abiType == 0
+			return holdsAt(b, "0", "==", abi.Name(), descInt)
+		}
+		if len(gcs) == 0 || sp == nil {
 			s.undec("tDecoder.Malloc", c.Pos(m.Pos()), "allocator dispatch has an unrecognised shape")
 		} else {
-			// span only when abiType == 0
-			okSpan := false
-			for _, cd := range domConds(sp.Block()) {
-				if bo, ok := cd.V.(*ssa.BinOp); ok && bo.X == ssa.Value(abi) {
-					if z, ok := constInt(bo.Y); ok && z == 0 && (bo.Op == token.NEQ && !cd.Truth || bo.Op == token.EQL && cd.Truth) {
-						okSpan = true
-					}
-				}
-			}
-			s.check(okSpan, "tDecoder.Malloc:span", c.InstrPos(sp), "the unscanned span serves only untyped requests", "typed (pointer-bearing) requests can be served from the unscanned bump span")
-			// mallocgc(n, abiType, needzero): needzero true whenever typed
-			nz := gc.Call.Args[2]
-			okZero := false
-			if cv, ok := nz.(*ssa.Const); ok && cv.Value != nil && cv.Value.ExactString() == "true" {
-				okZero = true
-			}
-			if bo, ok := nz.(*ssa.BinOp); ok && bo.Op == token.NEQ && bo.X == ssa.Value(abi) {
-				if z, ok := constInt(bo.Y); ok && z == 0 {
+			s.check(untypedOnly(sp.Block()), "tDecoder.Malloc:span", c.InstrPos(sp), "the unscanned span serves only untyped requests", "typed (pointer-bearing) requests can be served from the unscanned bump span")
+			for _, gc := range gcs {
+				nz := gc.Call.Args[2]
+				okZero := false
+				if cv, ok := nz.(*ssa.Const); ok && cv.Value != nil && cv.Value.ExactString() == "true" {
 					okZero = true
 				}
+				if bo, ok := nz.(*ssa.BinOp); ok && bo.Op == token.NEQ && bo.X == ssa.Value(abi) {
+					if z, ok := constInt(bo.Y); ok && z == 0 {
+						okZero = true
+					}
+				}
+				typed := gc.Call.Args[1] == ssa.Value(abi)
+				if z, ok := constInt(gc.Call.Args[1]); ok && z == 0 && untypedOnly(gc.Block()) {
+					typed, okZero = true, true // explicit untyped allocation on the abiType == 0 path
+				}
+				s.check(okZero && typed, "tDecoder.Malloc:gc", c.InstrPos(gc), "typed memory comes from mallocgc(n, typ, needzero=true)", "a request that may be typed is sent to mallocgc without its type or without zeroing: pointer-bearing memory would not be scanned by the GC (dangling pointers after a collection) or absent fields would keep garbage")
 			}
-			s.check(okZero && gc.Call.Args[1] == ssa.Value(abi), "tDecoder.Malloc:gc", c.InstrPos(gc), "typed memory comes from mallocgc(n, typ, needzero=true)", "typed memory is not requested zeroed with its type: the struct decoder writes only present fields and the GC would scan garbage")
 		}
 	} else {
 		s.bad("tDecoder.Malloc", "-", "not found")
